@@ -309,6 +309,9 @@ pub const LINE_PATS: &[LinePat] = &[
     LinePat { re: "^a.b$", matches: |t| { let c: Vec<char> = t.chars().collect(); c.len() == 3 && c[0] == 'a' && c[2] == 'b' && c[1] != '\n' } },
     // zero-width assertion only: a word boundary exists iff the line has a word character
     LinePat { re: r"\b", matches: |t| t.chars().any(|c| c.is_alphanumeric() || c == '_') },
+    // anchored at both ends AND able to match the empty string: accepting "" says nothing about other lines
+    LinePat { re: "^[a-z]*$", matches: |t| t.bytes().all(|c| c.is_ascii_lowercase()) },
+    LinePat { re: "^(x.*)?$", matches: |t| t.is_empty() || t.starts_with('x') },
 ];
 
 pub fn line_pat(re: &str) -> Option<&'static LinePat> {
